@@ -2184,7 +2184,9 @@ def _config_str(
     if _REGISTRY[selector].is_method:
       method_name = parts.pop(0)
       parts[0] += f'.{method_name}'  # parts[0] is the class name.
-    return parts
+    # Names differing only in case tie above: break the tie by the exact key, so
+    # that the order never depends on the order in which bindings were made.
+    return parts, key_tuple[0]
 
   import_manager = ImportManager(_IMPORTS)
   if import_manager.dynamic_registration:
